@@ -242,7 +242,16 @@ fn session(i: u64, len: usize) -> Vec<&'static str> {
 
 /// every split of a form at a token gap into two lines (the transcript must not depend on it)
 pub fn split_sessions() -> Vec<Vec<String>> {
-    let forms = ["(define (g a b) (list a (* b 2)))", "(g 1 (+ 2 3))", "(let ((p 1) (q \"a(b\")) (list p q))", "(cond ((= 1 2) 'no) (else (car '(yes))))"];
+    let forms = [
+        "(define (g a b) (list a (* b 2)))",
+        "(g 1 (+ 2 3))",
+        "(let ((p 1) (q \"a(b\")) (list p q))",
+        "(cond ((= 1 2) 'no) (else (car '(yes))))",
+        // dotted pairs and rest parameters: a line may end right after the dot
+        "(cdr '(1 . 2))",
+        "((lambda (a . r) (list a r)) 1 2 3)",
+        "(car (cdr '(1 2 . (3 4))))",
+    ];
     let mut out = vec![];
     for f in forms {
         let toks: Vec<&str> = f.split(' ').collect();
@@ -426,7 +435,7 @@ pub fn run(ctx: &Ctx) -> i32 {
             tier: ctx.tier_name(),
             seed: ctx.seed,
             exhaustive: true,
-            rule: format!("(1) the REPL's completeness test (hook verif_check_bracket_closed) on every string of length <= {} over {:?} against the reference predicate; (2) every sequence of <= {} input lines from {} fragments (thorough: also every 4-line sequence over the first 18) (definitions, values, unspecified values, failing forms, two forms on one line, halves of forms, a comment / string / character / |symbol| containing a parenthesis, a lone closing parenthesis) plus every two-line split of four forms at every token gap, fed to the built binary over a pipe; transcript (stdout and stderr lines) compared with the reference REPL; transitions = input lines", maxlen, ALPHABET, max_lines, FRAGMENTS.len()),
+            rule: format!("(1) the REPL's completeness test (hook verif_check_bracket_closed) on every string of length <= {} over {:?} against the reference predicate; (2) every sequence of <= {} input lines from {} fragments (thorough: also every 4-line sequence over the first 18) (definitions, values, unspecified values, failing forms, two forms on one line, halves of forms, a comment / string / character / |symbol| containing a parenthesis, a lone closing parenthesis) plus every two-line split of seven forms at every token gap, fed to the built binary over a pipe; transcript (stdout and stderr lines) compared with the reference REPL; transitions = input lines", maxlen, ALPHABET, max_lines, FRAGMENTS.len()),
             bounds: json!({"predicate_strings": n_pred, "max_len": maxlen, "sessions": total, "max_lines": max_lines}),
             assumptions: vec!["the reference REPL evaluates submissions through the library interface on one interpreter (the property's own differential); terminal mode (line editing, history, Ctrl-C) is not driven".into()],
             wall_s: ctx.elapsed(),
